@@ -234,6 +234,86 @@ func runSeqA(c *core.Ctx, cfg trigh.Config, v keyVariant, seq []byte, st *aStats
 	}
 }
 
+// runInstancesA: trigger instances made by ONE prototype must be independent of each other (a
+// group-by node that is run again - the joined side of a LOOKUP JOIN, a subquery per outer
+// record, a plan executed twice - calls its prototype again and must start afresh). Instance A
+// gets seq; instance B, made by the same prototype, gets the same events with the two keys
+// swapped and never the end of stream, interleaved event by event; after A has finished a third
+// instance C gets seq again. Each instance is compared with its own fresh model after every Poll.
+func runInstancesA(c *core.Ctx, cfg trigh.Config, v keyVariant, seq []byte, st *aStats) {
+	if capped() {
+		return
+	}
+	st.evals++
+	proto := cfg.Prototype(v.tIndex)
+	type inst struct {
+		name  string
+		real  execution.Trigger
+		model *trigh.Model
+		w     int
+	}
+	a := &inst{"A", proto(), trigh.NewModel(cfg), 0}
+	b := &inst{"B", proto(), trigh.NewModel(cfg), 0}
+	apply := func(in *inst, sym byte, i int) bool {
+		switch sym {
+		case 0, 1:
+			in.real.KeyReceived(v.keys[sym])
+			in.model.KeyReceived(v.gid[sym], v.times[sym])
+		case 2, 3:
+			in.w += int(sym) - 1
+			in.real.WatermarkReceived(trigh.Tick(in.w))
+			in.model.WatermarkReceived(trigh.Tick(in.w))
+		case 4:
+			in.real.EndOfStreamReached()
+			in.model.EndOfStreamReached()
+		}
+		got := in.real.Poll()
+		want := in.model.Poll()
+		st.polls++
+		if len(got) == 0 && len(want) == 0 {
+			return true
+		}
+		gm := map[string]int{}
+		for _, k := range got {
+			gm[v.identify(k)]++
+		}
+		wm := map[string]int{}
+		for _, k := range want {
+			wm[k]++
+		}
+		if sameCounts(gm, wm) {
+			return true
+		}
+		replay := map[string]interface{}{"id": "ai/" + cfg.Name() + "/" + v.name + "/" + seqString(seq), "part": "trigger-object-instances", "config": cfg.SQL(), "variant": v.name,
+			"sequence": seqString(seq), "instance": in.name, "failing_event_index": i, "real_poll": countsString(gm), "model_poll": countsString(wm)}
+		report(c, "prototype-instances-not-independent:"+cfg.Name(), fmt.Sprintf("two triggers from one prototype, sequence [%s] on A interleaved with its key-swapped copy on B, then again on a third instance C: instance %s after its event #%d: real Poll = %s, reference = %s", seqString(seq), in.name, i, countsString(gm), countsString(wm)), replay)
+		return false
+	}
+	for i, sym := range seq {
+		if !apply(a, sym, i) {
+			return
+		}
+		bs := sym
+		switch sym {
+		case 0:
+			bs = 1
+		case 1:
+			bs = 0
+		case 4:
+			bs = 0
+		}
+		if !apply(b, bs, i) {
+			return
+		}
+	}
+	cc := &inst{"C", proto(), trigh.NewModel(cfg), 0}
+	for i, sym := range seq {
+		if !apply(cc, sym, i) {
+			return
+		}
+	}
+}
+
 func sameCounts(a, b map[string]int) bool {
 	if len(a) != len(b) {
 		return false
@@ -370,6 +450,14 @@ func partA(c *core.Ctx) {
 			corrupt := selftest && idx%9973 == 0
 			runSeqA(c, j.cfg, j.v, seq, st, corrupt)
 		})
+		// instances of one prototype (all variants but the colliding one, whose single-instance
+		// behaviour is what the former finding was about)
+		before := st.evals
+		if !j.v.collision() {
+			Li := j.L - 2
+			enumerateA(Li, func(seq []byte) { runInstancesA(c, j.cfg, j.v, seq, st) })
+		}
+		c.Count("a/instance_interleavings", st.evals-before)
 		c.Eval(st.evals)
 		kind := "single"
 		if len(j.cfg) == 2 {
@@ -415,7 +503,7 @@ var shapes = map[string]shape{
 var tableFields = []physical.SchemaField{
 	{Name: "k", Type: octosql.String},
 	{Name: "ts", Type: octosql.Time},
-	{Name: "v", Type: octosql.Int},
+	{Name: "v", Type: octosql.TypeSum(octosql.Int, octosql.Null)},
 }
 
 // rec is one input record of a script: row (k, ts, v), sign; the event time is ts (shape k0: none).
@@ -424,6 +512,7 @@ type rec struct {
 	tick int
 	loc  *time.Location
 	v    int
+	null bool // v is NULL
 	retr bool
 }
 
@@ -444,6 +533,9 @@ func (e ev) String() string {
 	loc := ""
 	if e.r.loc != nil && e.r.loc != time.UTC {
 		loc = "[" + trigh.LocName(e.r.loc) + "]"
+	}
+	if e.r.null {
+		return fmt.Sprintf("%s(%s,%d%s,NULL)", sign, e.r.k, e.r.tick, loc)
 	}
 	return fmt.Sprintf("%s(%s,%d%s,%d)", sign, e.r.k, e.r.tick, loc, e.r.v)
 }
@@ -476,7 +568,11 @@ func toEvents(evs []ev, sh shape) []nodeh.Event {
 		if sh.timeField == -1 {
 			et = time.Time{}
 		}
-		out[i] = nodeh.Rec([]octosql.Value{octosql.NewString(e.r.k), octosql.NewTime(t), octosql.NewInt(int64(e.r.v))}, e.r.retr, et)
+		v := octosql.NewInt(int64(e.r.v))
+		if e.r.null {
+			v = octosql.NewNull()
+		}
+		out[i] = nodeh.Rec([]octosql.Value{octosql.NewString(e.r.k), octosql.NewTime(t), v}, e.r.retr, et)
 	}
 	return out
 }
@@ -487,6 +583,7 @@ type group struct {
 	k     string
 	tick  int
 	count int
+	nn    int // records with a non-NULL v (signed)
 	sum   int
 }
 
@@ -521,7 +618,12 @@ func (s *sim) row(g *group) string {
 	default:
 		vals = []octosql.Value{octosql.NewString(g.k), octosql.NewTime(trigh.Tick(g.tick))}
 	}
-	vals = append(vals, octosql.NewInt(int64(g.count)), octosql.NewInt(int64(g.sum)))
+	// SUM over no non-NULL input is NULL; COUNT(*) counts every record
+	sum := octosql.NewNull()
+	if g.nn > 0 {
+		sum = octosql.NewInt(int64(g.sum))
+	}
+	vals = append(vals, octosql.NewInt(int64(g.count)), sum)
 	return nodeh.RowKey(vals)
 }
 
@@ -582,12 +684,14 @@ func simulate(cfg trigh.Config, sh shape, evs []ev) *sim {
 				gr = &group{k: r.k, tick: r.tick}
 				groups[g] = gr
 			}
+			d := 1
 			if r.retr {
-				gr.count--
-				gr.sum -= r.v
-			} else {
-				gr.count++
-				gr.sum += r.v
+				d = -1
+			}
+			gr.count += d
+			if !r.null {
+				gr.nn += d
+				gr.sum += d * r.v
 			}
 			if gr.count == 0 {
 				delete(groups, g)
@@ -636,7 +740,11 @@ type caseB struct {
 	cfg  trigh.Config
 	sh   shape
 	evs  []ev
-	kind string // "ex" | "rnd"
+	kind string // "ex" | "rnd" | ...
+	alt  []ev   // if set: a different script for a further run of the same plan
+	// lookup: the triggered group-by is the joined side of a LOOKUP JOIN with 3 left rows, so
+	// octosql itself runs the same group-by node three times within one query
+	lookup bool
 }
 
 type failure struct {
@@ -653,28 +761,121 @@ func outKeyID(sh shape, o nodeh.Out) string {
 	return nodeh.RowKey(o.Record.Values[:sh.keyCols])
 }
 
+var leftIDs = []int64{7, 8, 9}
+
+func leftTable() *nodeh.Table {
+	var evs []nodeh.Event
+	for _, id := range leftIDs {
+		evs = append(evs, nodeh.Rec([]octosql.Value{octosql.NewInt(id)}, false, time.Time{}))
+	}
+	return &nodeh.Table{Fields: []physical.SchemaField{{Name: "id", Type: octosql.Int}}, TimeField: -1, Events: evs}
+}
+
+func lookupSQL(sh shape, cfg trigh.Config) string {
+	cols := map[string]string{"tk": "g.ts AS ts, g.k AS k", "kt": "g.k AS k, g.ts AS ts", "k": "g.k AS k", "k0": "g.k AS k"}[sh.name]
+	return "SELECT o.id AS id, " + cols + ", g.c AS c, g.s AS s FROM m.o o LOOKUP JOIN (" + sh.sel + cfg.Clause() + ") g"
+}
+
+// judgeB plans the case's query ONCE and judges every execution of the triggered group-by node:
+// the first run, a second run of the same materialized plan over the same script, and (if the
+// case has one) a third run over a different script; for lookup cases the single execution of
+// the query in which octosql runs the group-by once per left row. Each run is judged with the
+// full per-step oracle: a node that is run again must behave as on its first run.
 func judgeB(c *core.Ctx, cs caseB, corruptMode int) {
 	if capped() {
 		return
 	}
+	sql := cs.sh.sel + cs.cfg.Clause()
+	var extra map[string]*nodeh.Table
+	if cs.lookup {
+		sql = lookupSQL(cs.sh, cs.cfg)
+		extra = map[string]*nodeh.Table{"o": leftTable()}
+	}
+	h, perr := trigh.PlanSteps(context.Background(), sql, tableFields, cs.sh.timeField, true, extra)
+	if perr != nil {
+		c.Eval(1)
+		report(c, "plan-error:"+perr.Stage, "query was rejected: "+perr.Error(), map[string]interface{}{"id": cs.id, "sql": sql})
+		return
+	}
+	if cs.lookup {
+		events := toEvents(cs.evs, cs.sh)
+		outs, res := h.Run(context.Background(), events)
+		replay := map[string]interface{}{"id": cs.id, "part": "node-lookup-join", "sql": sql, "shape": cs.sh.name, "input": evsString(cs.evs), "left_rows": len(leftIDs), "output": nodeh.OutsString(outs)}
+		if res.Panicked || res.Err != nil {
+			judgeRun(c, cs, cs.evs, sql, events, outs, res, "lookup", 0)
+			return
+		}
+		if h.Starts() != len(leftIDs) {
+			c.Count("b/not_judged_lookup_right_side_start_count_differs", 1)
+			return
+		}
+		for r := 0; r < h.Starts(); r++ {
+			var sub []nodeh.Out
+			for _, o := range outs {
+				if o.Step/h.Stride != r {
+					continue
+				}
+				o2 := o
+				o2.Step = o.Step % h.Stride
+				if !o.IsWatermark {
+					if len(o.Record.Values) < 2 || o.Record.Values[0].Int != leftIDs[r] {
+						c.Eval(1)
+						report(c, "lookup-join-row-of-wrong-left-record", fmt.Sprintf("record %s emitted during the joined side's run #%d does not carry left id %d", o.String(), r, leftIDs[r]), replay)
+						return
+					}
+					o2.Record.Values = o.Record.Values[1:]
+				}
+				sub = append(sub, o2)
+			}
+			label := "lookup-first"
+			if r > 0 {
+				label = fmt.Sprintf("lookup-rerun%d", r)
+			}
+			if !judgeRun(c, cs, cs.evs, sql, events, sub, res, label, 0) {
+				return
+			}
+		}
+		return
+	}
+	type run struct {
+		evs   []ev
+		label string
+	}
+	runs := []run{{cs.evs, ""}, {cs.evs, "rerun-same-script"}}
+	if cs.alt != nil {
+		runs = append(runs, run{cs.alt, "rerun-other-script"})
+	}
+	for i, r := range runs {
+		events := toEvents(r.evs, cs.sh)
+		outs, res := h.Run(context.Background(), events)
+		mode := 0
+		if i == 0 {
+			mode = corruptMode
+		}
+		if !judgeRun(c, cs, r.evs, sql, events, outs, res, r.label, mode) {
+			return
+		}
+	}
+}
+
+// judgeRun judges one execution; label "" = first run of a freshly planned query. It returns
+// false if the run was not clean (the remaining runs of that plan are then skipped).
+func judgeRun(c *core.Ctx, cs caseB, script []ev, sql string, events []nodeh.Event, outs []nodeh.Out, res nodeh.RunResult, label string, corruptMode int) bool {
 	corrupt := corruptMode != 0
 	c.Eval(1)
-	sql := cs.sh.sel + cs.cfg.Clause()
-	events := toEvents(cs.evs, cs.sh)
-	_, outs, res, perr := trigh.RunSteps(context.Background(), sql, tableFields, cs.sh.timeField, events, true)
+	cs.evs = script
 	replay := map[string]interface{}{"id": cs.id, "part": "node", "sql": sql, "shape": cs.sh.name, "input": evsString(cs.evs), "input_events": nodeh.EventsString(events)}
-	if perr != nil {
-		report(c, "plan-error:"+perr.Stage, "query was rejected: "+perr.Error(), replay)
-		return
+	if label != "" {
+		replay["run"] = label
 	}
 	replay["output"] = nodeh.OutsString(outs)
 	if res.Panicked {
 		report(c, "panic:"+core.PanicSite(res.Stack), "group-by panicked: "+res.PanicMsg, replay)
-		return
+		return false
 	}
 	if res.Err != nil {
 		report(c, "error", "query returned error: "+res.Err.Error(), replay)
-		return
+		return false
 	}
 	if corruptMode == 1 {
 		// self-test: corrupt the recording (drop the last emitted record) - the oracle must fire
@@ -737,7 +938,7 @@ func judgeB(c *core.Ctx, cs caseB, corruptMode int) {
 	}
 	if bad {
 		c.Inconclusive("step-attribution")
-		return
+		return false
 	}
 	single := len(cs.cfg) <= 1
 	exact := single && !cs.cfg.Has('W')
@@ -763,6 +964,52 @@ func judgeB(c *core.Ctx, cs caseB, corruptMode int) {
 			// watermark-only configuration the statement forbids keys BEYOND the watermark only.
 			if exact && len(due) == 0 && len(got) > 0 {
 				fails = append(fails, failure{"not-due", g, step, fmt.Sprintf("step %d: %d record(s) emitted for key %s although no trigger was due for it", step, len(got), g)})
+			}
+			if !single {
+				// multi-trigger: re-emissions of an unchanged row are tolerated (DESIGN 3.4), but
+				// every CHANGE of the emitted result must be one of the due firings, in order:
+				// the rows inserted for the key in this step, consecutive repetitions dropped,
+				// must be exactly the due results, consecutive repetitions dropped; and the key
+				// must end the step on the last due result (or unchanged if nothing was due).
+				dedupe := func(start string, xs []string) []string {
+					var out []string
+					prev := start
+					for _, x := range xs {
+						if x == "" || x == prev {
+							continue
+						}
+						out = append(out, x)
+						prev = x
+					}
+					return out
+				}
+				var ins []string
+				cur := sent[g]
+				for _, r := range got {
+					if r.retr {
+						cur = ""
+					} else {
+						cur = r.row
+						ins = append(ins, r.row)
+					}
+				}
+				wantSeq := dedupe(sent[g], due)
+				gotSeq := dedupe(sent[g], ins)
+				same := len(wantSeq) == len(gotSeq)
+				for i := 0; same && i < len(wantSeq); i++ {
+					same = wantSeq[i] == gotSeq[i]
+				}
+				final := sent[g]
+				if len(due) > 0 {
+					final = due[len(due)-1]
+				}
+				if !same || cur != final {
+					kind := "changes-mismatch"
+					if len(due) == 0 {
+						kind = "not-due-changed"
+					}
+					fails = append(fails, failure{kind, g, step, fmt.Sprintf("step %d key %s (sent so far: %q): results due in this step %v, the node emitted %v (changes of the emitted result must be exactly the due firings)", step, g, sent[g], due, got)})
+				}
 			}
 			if single && cs.cfg.Has('W') && step < m && len(got) > 0 {
 				// watermark-only: before the end, a key may be emitted only in the step of a
@@ -919,6 +1166,10 @@ func judgeB(c *core.Ctx, cs caseB, corruptMode int) {
 		byKey := map[string][]failure{}
 		for _, f := range fails {
 			key := f.kind + ":" + cs.cfg.Name() + "@" + cs.sh.name
+			if label != "" {
+				// the first run of this plan was clean: the node does not start afresh
+				key = "rerun-differs:" + key
+			}
 			if corrupt {
 				key = fmt.Sprintf("selftest%d:%s", corruptMode, f.kind)
 			} else if cs.cfg.Has('W') && colliding[f.gid] && (f.kind == "due-missing" || f.kind == "wm-missing" || f.kind == "wm-stale") {
@@ -931,7 +1182,11 @@ func judgeB(c *core.Ctx, cs caseB, corruptMode int) {
 			replay["failures"] = len(fs)
 			report(c, key, fs[0].what, replay)
 		}
-		return
+		return false
+	}
+	if label != "" {
+		c.Count("b/reruns_judged/"+strings.TrimRight(label, "0123456789"), 1)
+		return true
 	}
 
 	// coverage
@@ -949,8 +1204,10 @@ func judgeB(c *core.Ctx, cs caseB, corruptMode int) {
 	if cs.kind == "rnd" {
 		c.Count("b/rnd/shape/"+cs.sh.name, 1)
 		c.Count("b/rnd/config/"+cs.cfg.Name(), 1)
-	} else {
+	} else if cs.kind == "ex" || cs.kind == "exmix" {
 		c.Count("b/"+cs.kind+"/"+cs.sh.name+"/"+cs.cfg.Name(), 1)
+	} else {
+		c.Count("b/"+cs.kind+"/"+cs.sh.name, 1)
 	}
 	c.Count("b/due_firings_checked", dueTotal)
 	c.Count("b/output_records_attributed", emissions)
@@ -975,6 +1232,7 @@ func judgeB(c *core.Ctx, cs caseB, corruptMode int) {
 	if h := core.Hash(cs.id); h[0] == '0' && h[1] < '4' {
 		c.Sample(replay)
 	}
+	return true
 }
 
 func sortedSet(m map[string]bool) []string {
@@ -1000,7 +1258,7 @@ func sortedKeysF(m map[string][]failure) []string {
 // symbols: 0 +a@w+1, 1 +a@w+2, 2 +b@w+1, 3 +b@w+2, 4 -a, 5 -b (the most recently inserted row of
 // that k that is still present and whose time is beyond the watermark), 6 watermark +1, 7 watermark +2.
 // locB is the Location of the time values of k = b (the finding's predicate needs two locations).
-func enumerateB(L int, locB *time.Location, fn func(evs []ev)) int {
+func enumerateB(L int, locB *time.Location, nullB bool, fn func(evs []ev)) int {
 	n := 0
 	var evs []ev
 	type ins struct {
@@ -1031,7 +1289,7 @@ func enumerateB(L int, locB *time.Location, fn func(evs []ev)) int {
 				}
 				tick := w + 1 + sym%2
 				v := tick*10 + ki + 1
-				evs = append(evs, ev{r: rec0(k, tick, loc, v, false)})
+				evs = append(evs, ev{r: rec0(k, tick, loc, v, false, nullB && k == "b")})
 				present[k] = append(present[k], ins{tick, v})
 				rec()
 				present[k] = present[k][:len(present[k])-1]
@@ -1056,7 +1314,7 @@ func enumerateB(L int, locB *time.Location, fn func(evs []ev)) int {
 				it := p[idx]
 				saved := append([]ins{}, p...)
 				present[k] = append(append([]ins{}, p[:idx]...), p[idx+1:]...)
-				evs = append(evs, ev{r: rec0(k, it.tick, loc, it.v, true)})
+				evs = append(evs, ev{r: rec0(k, it.tick, loc, it.v, true, nullB && k == "b")})
 				rec()
 				evs = evs[:len(evs)-1]
 				present[k] = saved
@@ -1077,8 +1335,8 @@ func enumerateB(L int, locB *time.Location, fn func(evs []ev)) int {
 	return n
 }
 
-func rec0(k string, tick int, loc *time.Location, v int, retr bool) rec {
-	return rec{k: k, tick: tick, loc: loc, v: v, retr: retr}
+func rec0(k string, tick int, loc *time.Location, v int, retr bool, null bool) rec {
+	return rec{k: k, tick: tick, loc: loc, v: v, retr: retr, null: null}
 }
 
 type shapeCfg struct {
@@ -1117,7 +1375,7 @@ func partB(c *core.Ctx) {
 	for _, L := range []int{Lcore, Lrest, 4} {
 		if scripts[L] == nil {
 			var all [][]ev
-			enumerateB(L, nil, func(evs []ev) { all = append(all, evs) })
+			enumerateB(L, nil, false, func(evs []ev) { all = append(all, evs) })
 			scripts[L] = all
 		}
 	}
@@ -1125,14 +1383,28 @@ func partB(c *core.Ctx) {
 	c.Note("b_exhaustive_bound", fmt.Sprintf("all legal scripts over {+a@w+1,+a@w+2,+b@w+1,+b@w+2,-a,-b,W+1,W+2} of length <= %d (core configurations) / <= %d (the others), %d (shape, configuration) pairs", Lcore, Lrest, len(list)))
 	var cases []caseB
 	for _, sc := range list {
-		for i, evs := range scripts[sc.L] {
-			cases = append(cases, caseB{id: fmt.Sprintf("b-ex/%s/%s/%d/%d", sc.sh, sc.cfg.Name(), sc.L, i), cfg: sc.cfg, sh: shapes[sc.sh], evs: evs, kind: "ex"})
+		lst := scripts[sc.L]
+		for i, evs := range lst {
+			cs := caseB{id: fmt.Sprintf("b-ex/%s/%s/%d/%d", sc.sh, sc.cfg.Name(), sc.L, i), cfg: sc.cfg, sh: shapes[sc.sh], evs: evs, kind: "ex"}
+			if i%4 == 0 {
+				cs.alt = lst[(i*7+3)%len(lst)] // third run of the same plan over a different script
+			}
+			cases = append(cases, cs)
+		}
+	}
+	// NULL-valued aggregate arguments: the same enumeration with v of k=b always NULL (a
+	// NULL-only group next to a normal one: count(*) counts, sum is NULL)
+	var nullB [][]ev
+	enumerateB(4, nil, true, func(evs []ev) { nullB = append(nullB, evs) })
+	for _, sc := range list {
+		for i, evs := range nullB {
+			cases = append(cases, caseB{id: fmt.Sprintf("b-exnull/%s/%s/%d", sc.sh, sc.cfg.Name(), i), cfg: sc.cfg, sh: shapes[sc.sh], evs: evs, kind: "exnull"})
 		}
 	}
 	// the same enumeration with k=b carrying its time in another Location (predicate of the
 	// known finding), for the configurations that contain ON WATERMARK
 	var mixed [][]ev
-	enumerateB(4, trigh.LocPool[1], func(evs []ev) { mixed = append(mixed, evs) })
+	enumerateB(4, trigh.LocPool[1], false, func(evs []ev) { mixed = append(mixed, evs) })
 	for _, sc := range list {
 		if !sc.cfg.Has('W') {
 			continue
@@ -1141,10 +1413,37 @@ func partB(c *core.Ctx) {
 			cases = append(cases, caseB{id: fmt.Sprintf("b-exmix/%s/%s/%d", sc.sh, sc.cfg.Name(), i), cfg: sc.cfg, sh: shapes[sc.sh], evs: evs, kind: "exmix"})
 		}
 	}
+	all := append([]trigh.Config{{}}, trigh.AllConfigs(4)...)
+	// fixed scripts, under every configuration: a group that is emitted, emptied by retractions
+	// and refilled with NULL-valued records between two firings; a NULL-only group
+	for wi, w := range nullWitnesses() {
+		for _, cfg := range all {
+			for _, shn := range []string{"k0", "k", "tk"} {
+				if cfg.Has('W') && !shapes[shn].allowsW {
+					continue
+				}
+				cases = append(cases, caseB{id: fmt.Sprintf("b-nullwit/%d/%s/%s", wi, shn, cfg.Name()), cfg: cfg, sh: shapes[shn], evs: w, kind: "nullwit"})
+			}
+		}
+	}
+	// the triggered group-by as the joined side of a LOOKUP JOIN (octosql runs that node once
+	// per left row), every configuration
+	lrng := c.Rng("b-lookup")
+	nLookup := c.Pick(6, 60)
+	for _, cfg := range all {
+		for j := 0; j < nLookup; j++ {
+			var sh shape
+			if cfg.Has('W') {
+				sh = shapes[[]string{"tk", "kt"}[lrng.Intn(2)]]
+			} else {
+				sh = shapes[[]string{"tk", "k", "k0"}[lrng.Intn(3)]]
+			}
+			cases = append(cases, caseB{id: fmt.Sprintf("b-lookup/%s/%d", cfg.Name(), j), cfg: cfg, sh: sh, evs: randomScript(lrng, 5+lrng.Intn(14), false, lrng.Intn(2)), kind: "lookup", lookup: true})
+		}
+	}
 	// random longer scripts over all configurations
 	N := c.Pick(4000, 100000)
 	rng := c.Rng("b-random")
-	all := append([]trigh.Config{{}}, trigh.AllConfigs(4)...)
 	c.Note("b_random_configurations", len(all))
 	for i := 0; i < N; i++ {
 		cfg := all[rng.Intn(len(all))]
@@ -1156,7 +1455,12 @@ func partB(c *core.Ctx) {
 		}
 		mixedLoc := rng.Intn(3) == 0
 		n := c.Pick(6+rng.Intn(20), 40)
-		cases = append(cases, caseB{id: fmt.Sprintf("b-rnd/%d", i), cfg: cfg, sh: sh, evs: randomScript(rng, n, mixedLoc), kind: "rnd"})
+		nullMode := rng.Intn(3) % 2 // 1/3 of the scripts carry NULLs
+		cs := caseB{id: fmt.Sprintf("b-rnd/%d", i), cfg: cfg, sh: sh, evs: randomScript(rng, n, mixedLoc, nullMode), kind: "rnd"}
+		if i%3 == 0 {
+			cs.alt = randomScript(rng, 4+rng.Intn(12), false, nullMode)
+		}
+		cases = append(cases, cs)
 	}
 	core.Parallel(len(cases), 16, func(i int) {
 		cs := cases[i]
@@ -1173,17 +1477,33 @@ func partB(c *core.Ctx) {
 	})
 }
 
+// nullWitnesses: (1) key a is emitted, emptied and refilled with NULL-only records (with COUNTING 3
+// the refill lies between two firings), next to a normal key; (2) a NULL-only group next to a
+// normal one, with a watermark in between.
+func nullWitnesses() [][]ev {
+	r := func(k string, tick, v int, null, retr bool) ev {
+		return ev{r: rec{k: k, tick: tick, v: v, null: null, retr: retr}}
+	}
+	return [][]ev{
+		{r("a", 1, 5, false, false), r("a", 1, 5, false, false), r("a", 1, 5, false, true), r("b", 1, 2, false, false), r("a", 1, 5, false, true), r("a", 1, 0, true, false), r("a", 1, 0, true, false), {isWM: true, wm: 1}, r("b", 2, 3, false, false)},
+		{r("n", 1, 0, true, false), r("a", 1, 3, false, false), r("n", 1, 0, true, false), {isWM: true, wm: 1}, r("n", 2, 0, true, false), r("a", 2, 4, false, false), r("n", 2, 0, true, false), r("n", 2, 0, true, true)},
+		{r("a", 1, 5, false, false), r("a", 1, 5, false, true), r("a", 1, 0, true, false), r("a", 1, 0, true, false), r("a", 1, 0, true, false), r("a", 1, 0, true, false)},
+	}
+}
+
 // randomScript: a valid watermarked changelog over 3 string keys and ticks 1..10: retractions
 // only of present rows (same values, hence same ts = event time), records never at or below the
 // current watermark, watermarks strictly increasing.
-func randomScript(rng *rand.Rand, n int, mixedLoc bool) []ev {
+func randomScript(rng *rand.Rand, n int, mixedLoc bool, nullMode int) []ev {
 	var evs []ev
 	type ins struct {
 		k    string
 		tick int
 		v    int
+		null bool
 	}
 	var present []ins
+	var emptied []ins // rows that were retracted (candidates for a NULL refill of their group)
 	w := 0
 	const maxTick = 10
 	pickLoc := func() *time.Location {
@@ -1214,7 +1534,8 @@ func randomScript(rng *rand.Rand, n int, mixedLoc bool) []ev {
 			i := cand[rng.Intn(len(cand))]
 			p := present[i]
 			present = append(present[:i], present[i+1:]...)
-			evs = append(evs, ev{r: rec{k: p.k, tick: p.tick, loc: pickLoc(), v: p.v, retr: true}})
+			emptied = append(emptied, p)
+			evs = append(evs, ev{r: rec{k: p.k, tick: p.tick, loc: pickLoc(), v: p.v, null: p.null, retr: true}})
 		default:
 			if w >= maxTick {
 				continue
@@ -1225,8 +1546,23 @@ func randomScript(rng *rand.Rand, n int, mixedLoc bool) []ev {
 				tick = maxTick
 			}
 			v := rng.Intn(5) - 1
-			present = append(present, ins{k, tick, v})
-			evs = append(evs, ev{r: rec{k: k, tick: tick, loc: pickLoc(), v: v}})
+			null := false
+			if nullMode == 1 {
+				// key c is NULL in every record; the others in one record out of four; and now
+				// and then a group that lost a row is refilled with a NULL-valued record
+				null = k == "c" || rng.Intn(4) == 0
+				if len(emptied) > 0 && rng.Intn(3) == 0 {
+					e := emptied[rng.Intn(len(emptied))]
+					if e.tick > w {
+						k, tick, null = e.k, e.tick, true
+					}
+				}
+			}
+			if null {
+				v = 0
+			}
+			present = append(present, ins{k, tick, v, null})
+			evs = append(evs, ev{r: rec{k: k, tick: tick, loc: pickLoc(), v: v, null: null}})
 		}
 	}
 	return evs
@@ -1259,7 +1595,9 @@ func Run(c *core.Ctx) core.FinishOpts {
 		violationCap = 5000
 	}
 	t0 := time.Now()
-	partA(c)
+	if os.Getenv("VERIF_C17_SKIP_A") != "1" { // development aid: judge the node level alone
+		partA(c)
+	}
 	c.Note("info_wall_part_a_s", time.Since(t0).Seconds())
 	t0 = time.Now()
 	partB(c)
